@@ -274,6 +274,9 @@ func (d *c29Disk) DeletePrefix(prefix string) error {
 			if kparts[0] != pparts[0] {
 				kind = "epoch-prefix-matched-longer-epoch"
 				w.r.Probe("epoch_prefix_deleted_other_epoch")
+				if os.Getenv("VERIF_C29_STOP_AT") == "epoch_prefix" { // development only
+					w.viol("debug-stop", "epoch_prefix", "DeleteEpochRewards deleted an entry of another epoch: "+k)
+				}
 			}
 		} else if len(kparts) >= 3 && len(pparts) >= 3 && kparts[2] != pparts[2] {
 			kind = "session-prefix-matched-longer-session-id"
@@ -386,9 +389,9 @@ type c29Life struct {
 }
 
 type c29Rates struct {
-	txFail, txPanic, txSlow                  [2]int
+	txFail, txPanic, txSlow                    [2]int
 	dbBatchFail, dbTorn, dbDelFail, dbFindFail [2]int
-	epochSkip, epochJump, payLost            [2]int
+	epochSkip, epochJump, payLost              [2]int
 }
 
 type c29World struct {
@@ -406,6 +409,8 @@ type c29World struct {
 	sessMode                   int
 	nLives                     int
 	adaptiveCrash              bool
+	young                      bool
+	burst                      bool
 
 	cur, earliest uint64
 
@@ -847,7 +852,11 @@ func (w *c29World) producer(L *c29Life, pi int, n int) {
 	defer func() { L.producersLeft-- }()
 	ctx := context.Background()
 	for i := 0; i < n; i++ {
-		w.sleep("harness:producer", time.Duration(r.Draw(stream, 40))*50*time.Millisecond)
+		think := time.Duration(r.Draw(stream, 40)) * 50 * time.Millisecond
+		if w.burst {
+			think = time.Duration(r.Draw(stream, 3)) * 50 * time.Millisecond // many sends at the same instant
+		}
+		w.sleep("harness:producer", think)
 		if !L.loadOpen || w.dead {
 			return
 		}
@@ -1103,6 +1112,7 @@ func c29NewWorld(r *simrt.Run) *c29World {
 	w.threshold = []uint{1, 2, 3, 5, 1000}[r.Draw("cfg", 5)]
 	w.snapSec = []uint{1, 2, 5, 15, 30}[r.Draw("cfg", 5)]
 	w.specs = []string{"LAV1", "ETH1"}[:1+r.Draw("cfg", 2)]
+	w.burst = r.Draw("cfg", 3) == 2
 	nCons := 1 + r.Draw("cfg", 3)
 	zr := sigs.NewZeroReader(29)
 	w.sessMode = r.Draw("cfg", 4)
@@ -1145,6 +1155,20 @@ func c29NewWorld(r *simrt.Run) *c29World {
 			w.nLives = 2 + r.Draw("cfg", 2)
 			w.adaptiveCrash = r.Draw("cfg", 2) == 1
 		}
+	case "young":
+		// directed at RewardDB.DeleteEpochRewards (bare decimal epoch as key prefix): a chain so young
+		// that epoch e (10 or 20) is still in chain memory when epoch 10e (100 or 200) is served, a
+		// crash before e is claimed, a restart near 10e. Honest session ids, few other faults.
+		w.young = true
+		w.sessIDs = nil
+		w.cur = w.epochSize
+		w.earliest = 0
+		w.memBlocks = w.dist + w.epochSize*uint64(5+r.Draw("cfg", 5))
+		w.fr.txFail = [2]int{1, 8}
+		w.fr.dbBatchFail = [2]int{1, 16}
+		w.fr.epochSkip = [2]int{r.Draw("cfg", 2), 8}
+		w.nLives = 3
+		w.adaptiveCrash = true
 	}
 	r.Logf("config: profile=%s epochSize=%d window=%d memory=%d blocks, chain starts at epoch %d (earliest %d), epoch lasts %v, snapshot threshold=%d timer=%ds, chains=%v, consumers=%d, session ids=%v (nil: fresh random id per consumer/chain/epoch), lifetimes=%d adaptiveCrash=%v",
 		w.profile, w.epochSize, w.dist, w.memBlocks, w.cur, w.earliest, w.epochDur, w.threshold, w.snapSec, w.specs, nCons, w.sessIDs, w.nLives, w.adaptiveCrash)
@@ -1169,6 +1193,12 @@ func runC29(r *simrt.Run) {
 		if !final {
 			// the process stays down for a while
 			down := uint64(r.Draw("f.crash", 7))
+			if w.young && li == 0 {
+				// come back shortly before / at epoch 10 x (first epoch)
+				if target := w.epochSize * uint64(10-r.Draw("f.crash", 3)); target > w.cur {
+					down = (target - w.cur) / w.epochSize
+				}
+			}
 			w.advanceChain(down)
 			w.simBase += int64(time.Duration(down) * w.epochDur)
 			r.Logf("---- process down for %d epochs; chain now at epoch %d (earliest %d) ----", down, w.cur, w.earliest)
@@ -1199,6 +1229,9 @@ func (w *c29World) runLife(s *simrt.Sched, li int, final bool) {
 	if li > 0 {
 		loadEpochs = r.Draw("cfg", 3)
 	}
+	if w.young {
+		loadEpochs = 1 + r.Draw("cfg", 3)
+	}
 	if w.badger {
 		// every payment makes Badger's DropPrefix allocate a fresh 64 MB memtable: keep these runs small
 		loadEpochs, nProd, per = 1+r.Draw("cfg", 2), 1+r.Draw("cfg", 2), 2+r.Draw("cfg", 3)
@@ -1221,7 +1254,9 @@ func (w *c29World) runLife(s *simrt.Sched, li int, final bool) {
 	s.Go("payments", true, func() { w.paymentsTask(L) })
 
 	crashAt := 0
-	if !final {
+	if w.young && li == 0 {
+		crashAt = 1 + r.Draw("f.crash", 300) // before the first epoch can be claimed
+	} else if !final {
 		switch r.Draw("f.crash", 5) {
 		case 1:
 			crashAt = 1 + r.Draw("f.crash", 100)
@@ -1273,7 +1308,7 @@ func (w *c29World) runLife(s *simrt.Sched, li int, final bool) {
 		return
 	}
 	// let the last claim rounds finish
-	s.Drain(w.epochDur, 200000)
+	s.Drain(2*w.epochDur, 200000)
 	r.SimSpan += int64(time.Since(L.start))
 	if r.Violated() != nil || w.dead {
 		return
@@ -1445,19 +1480,23 @@ func (w *c29World) finalChecks(L *c29Life) {
 }
 
 func init() {
-	// 1 run in 64 uses the real in-memory Badger (slow: see runLife), the others SimDisk
+	// 67 slots (prime: every worker, whatever the stride, cycles through all of them): 1 run in 67
+	// uses the real in-memory Badger (slow: see runLife), 8 the directed young-chain profile
 	var profiles []string
-	for i := 0; i < 64; i++ {
+	for i := 0; i < 67; i++ {
 		profiles = append(profiles, []string{"clean", "faults", "crash", "crash", "faults", "crash", "clean", "crash"}[i%8])
 	}
 	profiles[20] = "badger"
+	for i := 5; i < 67; i += 8 {
+		profiles[i] = "young"
+	}
 	simrt.Register("C29", &simrt.PropSpec{Fn: runC29, Profiles: profiles,
 		NonTrivial: func(r *simrt.Run) bool {
 			return r.Ops["proof:ok"] >= 3 && r.Ops["claim:ok"]+r.Ops["claim:failed"] >= 1 && r.Switches >= 50
 		},
-		Rule: "One run = 1-3 process lifetimes of the real RewardServer+RewardDB, each inside its own synctest bubble under the token-passing scheduler (every lock, atomic, channel op, select, WaitGroup.Wait, sleep and `go` of the instrumented rewardserver package is a scheduling point; every map range is ordered by the simulator: sorted / reversed / shuffled per run). Tasks: 1-4 proof producers (SendNewProof for 1-3 consumers x 1-2 chains x the epochs still inside the active window; CuSum increasing, equal and decreasing; relay numbers that hit the snapshot threshold; session ids either fresh random 63-bit per consumer/chain/epoch as lavasession consumers make them, or short ids 1/10/100/7 shared by consumers, chains and epochs), an epoch task (simulated chain advances, young chain starting at epoch 10/20 or mature chain, UpdateEpoch per epoch), a payment task (relay_payment events built like x/pairing emits them, parsed by BuildPaymentFromRelayPaymentEvent, fed to PaymentHandler), the start-up task (AddDB + restoreRewardsFromDB per chain under the server lock), the server's own snapshot job and claim rounds. Profiles: clean (no fault at all; every best proof must be claimed), faults (tx failure 1/8..7/8, tx panic, tx slower than an epoch, DB write failure, torn batch, DB delete / read failure, missed epoch updates, multi-epoch jumps, lost payment events), crash (faults + 1-2 crashes at a tape-chosen scheduling point or, adaptively, right after an unclaimed durable proof vanished from the disk; downtime 0-6 epochs; restart over the SimDisk content), badger (clean, on the real in-memory Badger). Non-trivial = >=3 accepted proofs, >=1 claim transaction, >=50 context switches; distinct = (op,outcome,fault) sequence x context-switch sequence",
-		Real: []string{"protocol/rpcprovider/rewardserver RewardServer: SendNewProof/saveProofInMemory, UpdateEpoch -> runRewardServerEpochUpdate -> sendRewardsClaim/gatherRewardsForClaim/gatherFailedRequestPaymentsToRetry/updatePaymentRequestAttempt, PaymentHandler, snapshot job (timer + threshold), restoreRewardsFromDB, BuildPaymentFromRelayPaymentEvent (instrumented copies through the build overlay)", "RewardDB (key assembly, BatchSave, FindAllInDB, DeleteClaimedRewards, DeleteEpochRewards)", "BadgerDB on in-memory Badger (profile badger only)", "utils/sigs signing and signer recovery of every proof (deterministic consumer keys)", "goccy/go-json encoding of the stored proofs", "timers / context deadlines on the synctest fake clock"},
+		Rule:    "One run = 1-3 process lifetimes of the real RewardServer+RewardDB, each inside its own synctest bubble under the token-passing scheduler (every lock, atomic, channel op, select, WaitGroup.Wait, sleep and `go` of the instrumented rewardserver package is a scheduling point; every map range is ordered by the simulator: sorted / reversed / shuffled per run). Tasks: 1-4 proof producers (SendNewProof for 1-3 consumers x 1-2 chains x the epochs still inside the active window; CuSum increasing, equal and decreasing; relay numbers that hit the snapshot threshold; session ids either fresh random 63-bit per consumer/chain/epoch as lavasession consumers make them, or short ids 1/10/100/7 shared by consumers, chains and epochs), an epoch task (simulated chain advances, young chain starting at epoch 10/20 or mature chain, UpdateEpoch per epoch), a payment task (relay_payment events built like x/pairing emits them, parsed by BuildPaymentFromRelayPaymentEvent, fed to PaymentHandler), the start-up task (AddDB + restoreRewardsFromDB per chain under the server lock), the server's own snapshot job and claim rounds. Profiles: clean (no fault at all; every best proof must be claimed), faults (tx failure 1/8..7/8, tx panic, tx slower than an epoch, DB write failure, torn batch, DB delete / read failure, missed epoch updates, multi-epoch jumps, lost payment events), crash (faults + 1-2 crashes at a tape-chosen scheduling point or, adaptively, right after an unclaimed durable proof vanished from the disk; downtime 0-6 epochs; restart over the SimDisk content), badger (clean, on the real in-memory Badger). Non-trivial = >=3 accepted proofs, >=1 claim transaction, >=50 context switches; distinct = (op,outcome,fault) sequence x context-switch sequence",
+		Real:    []string{"protocol/rpcprovider/rewardserver RewardServer: SendNewProof/saveProofInMemory, UpdateEpoch -> runRewardServerEpochUpdate -> sendRewardsClaim/gatherRewardsForClaim/gatherFailedRequestPaymentsToRetry/updatePaymentRequestAttempt, PaymentHandler, snapshot job (timer + threshold), restoreRewardsFromDB, BuildPaymentFromRelayPaymentEvent (instrumented copies through the build overlay)", "RewardDB (key assembly, BatchSave, FindAllInDB, DeleteClaimedRewards, DeleteEpochRewards)", "BadgerDB on in-memory Badger (profile badger only)", "utils/sigs signing and signer recovery of every proof (deterministic consumer keys)", "goccy/go-json encoding of the stored proofs", "timers / context deadlines on the synctest fake clock"},
 		Stubbed: []string{"RewardsTxSender + ChainTrackerSpecsInf: simulated lava chain (epoch, earliest epoch in memory, payment window = GetEpochSizeMultipliedByRecommendedEpochNumToCollectPayment), TxRelayPayment records every call and fails / panics / is slow by tape", "rewardserver.DB: SimDisk (acknowledged writes durable, write failure, torn batch, delete and read failure), survives crashes", "relay server (producer tasks calling SendNewProof like RPCProviderServer.SendProof)", "state tracker: epoch updates and payment events (routed by description like PaymentUpdater)", "process crash = the bubble of that lifetime ends, nothing but SimDisk and the chain survives", "provider metrics = nil"},
-		Assume: []string{"code between two instrumented synchronisation points is atomic in the simulation (every simulated schedule is a real one, not vice versa): a data race without any lock is invisible", "GetEpochSize reports 1 so that the crypto/rand claim delay of AddRewardDelayForUnifiedRewardDistribution is always 0 (runs stay a function of the tape)", "start-up uses AddDB + restoreRewardsFromDB under the server lock exactly like AddDataBase, whose hard-wired NewLocalDB (Badger on disk) is replaced by the SimDisk handle", "a proof reaches SendNewProof only while its epoch is inside the active window (the session manager rejects relays of blocked epochs); no proof arrives for an epoch that was already gathered for claim", "a claim is linked to its claim round through the goroutine that created the TxRelayPayment goroutine; the memory bound is checked against the earliest epoch the chain reported to that round, the window bound against the chain at the submission instant", "`claimed after restart` means handed to TxRelayPayment at least once with at least the durable CuSum; proofs given up after MaxPaymentRequestsRetiresForSession failed submissions, claimed successfully or paid before the crash are not required", "SimDisk honours the entry TTL (24 h default) on the simulated clock; no run lasts that long"},
+		Assume:  []string{"code between two instrumented synchronisation points is atomic in the simulation (every simulated schedule is a real one, not vice versa): a data race without any lock is invisible", "GetEpochSize reports 1 so that the crypto/rand claim delay of AddRewardDelayForUnifiedRewardDistribution is always 0 (runs stay a function of the tape)", "start-up uses AddDB + restoreRewardsFromDB under the server lock exactly like AddDataBase, whose hard-wired NewLocalDB (Badger on disk) is replaced by the SimDisk handle", "a proof reaches SendNewProof only while its epoch is inside the active window (the session manager rejects relays of blocked epochs); no proof arrives for an epoch that was already gathered for claim", "a claim is linked to its claim round through the goroutine that created the TxRelayPayment goroutine; the memory bound is checked against the earliest epoch the chain reported to that round, the window bound against the chain at the submission instant", "`claimed after restart` means handed to TxRelayPayment at least once with at least the durable CuSum; proofs given up after MaxPaymentRequestsRetiresForSession failed submissions, claimed successfully or paid before the crash are not required", "SimDisk honours the entry TTL (24 h default) on the simulated clock; no run lasts that long"},
 	})
 }
